@@ -613,6 +613,96 @@ func checkStopStart() func(x *rt.Exec) []mc.Fail {
 	}
 }
 
+// ackBody: a second application goroutine consumes results with Results() / AckResult() while they are still
+// arriving. A result leaves the client only by being acknowledged: at the end every operation must have exactly one
+// terminal result that was either acknowledged by the application or is still in Results().
+func ackBody() func() {
+	return func() {
+		srv := &script{nOps: 1 << 30}
+		stub := wire.New(srv)
+		c := newClient(false)
+		if err := c.UseStub(stub); err != nil {
+			panic(err)
+		}
+		if err := c.Connect(context.Background()); err != nil {
+			panic(err)
+		}
+		sent := ops(3)
+		for _, o := range sent {
+			c.Q(&spb.ModifyRequest{Operation: []*spb.AFTOperation{o}})
+		}
+		var acked []uint64
+		done := make(chan struct{})
+		rt.Go("application-acker", func() {
+			for tries := 0; tries < 8 && len(acked) < 2; tries++ {
+				res, err := c.Results()
+				if err != nil {
+					break
+				}
+				for _, r := range res {
+					if r != nil && r.OperationID != 0 {
+						if err := c.AckResult(r); err == nil {
+							acked = append(acked, r.OperationID)
+						}
+						break
+					}
+				}
+				rt.Sleep(time.Millisecond)
+			}
+			rt.Close(done)
+		})
+		c.StartSending()
+		err := c.AwaitConverged(context.Background())
+		rt.Recv(done)
+		rt.Emit("await-returned", fmt.Sprint(err))
+		f := snapshot(c, sent, false)
+		f.awaitNil = err == nil
+		f.awaitErr = fmt.Sprint(err)
+		for _, id := range acked {
+			f.terminals[id]++
+		}
+		rt.Emit("acked", fmt.Sprint(acked))
+		rt.Emit("final", f)
+		c.Close()
+		rt.Quiesce()
+	}
+}
+
+func checkAck() func(x *rt.Exec) []mc.Fail {
+	return func(x *rt.Exec) []mc.Fail {
+		var out []mc.Fail
+		switch {
+		case x.Crash != "":
+			return []mc.Fail{{Sig: "crash/" + firstLine(x.Crash), What: x.Crash}}
+		case x.Deadlock:
+			return []mc.Fail{{Sig: "C13/client-blocked", What: fmt.Sprintf("acknowledging results while they arrive: blocked: %v", x.Blocked)}}
+		case x.Livelock:
+			return []mc.Fail{{Sig: "C13/await-never-returns", What: fmt.Sprintf("acknowledging results while they arrive: AwaitConverged never returns; blocked: %v", x.Blocked)}}
+		}
+		acked := ""
+		for _, e := range x.Events {
+			switch e.Label {
+			case "acked":
+				acked = e.Val.(string)
+			case "final":
+				f := e.Val.(final)
+				if !f.awaitNil {
+					out = append(out, mc.Fail{Sig: "C13/await-failed-against-well-behaved-server", What: "acknowledging results while they arrive: AwaitConverged returned " + f.awaitErr})
+				}
+				for id := uint64(1); id <= 3; id++ {
+					if n := f.terminals[id]; n != 1 {
+						out = append(out, mc.Fail{Sig: fmt.Sprintf("C13/terminal-results-%d-not-1", n), What: fmt.Sprintf("operation %d has %d terminal results counting those the application acknowledged %s and those still in Results() %v: a result that was never acknowledged is gone", id, n, acked, f.results)})
+					}
+				}
+				if len(f.pending) > 0 {
+					out = append(out, mc.Fail{Sig: "C13/converged-with-pending", What: fmt.Sprintf("pending after AwaitConverged: %v", f.pending)})
+				}
+			}
+		}
+		return out
+	}
+}
+
 func checkReusedID(shape string) func(x *rt.Exec) []mc.Fail {
 	return func(x *rt.Exec) []mc.Fail {
 		switch {
@@ -795,9 +885,9 @@ func outcome(x *rt.Exec) string {
 // accountingParts lists the C13 shards.
 func accountingParts(tier string) []string {
 	if tier == "thorough" {
-		return []string{"2-ops/rib-ack/rich", "2-ops/fib-ack/rich", "3-ops/rib-ack", "3-ops/fib-ack", "1-op/fib-ack/rich", "reused-id", "stop-start"}
+		return []string{"2-ops/rib-ack/rich", "2-ops/fib-ack/rich", "3-ops/rib-ack", "3-ops/fib-ack", "1-op/fib-ack/rich", "reused-id", "stop-start", "ack-while-receiving"}
 	}
-	return []string{"2-ops/rib-ack", "2-ops/fib-ack", "1-op/fib-ack/rich", "reused-id", "stop-start"}
+	return []string{"2-ops/rib-ack", "2-ops/fib-ack", "1-op/fib-ack/rich", "reused-id", "stop-start", "ack-while-receiving"}
 }
 
 // RunC13 decides C13 (one shard process per configuration).
@@ -820,6 +910,15 @@ func ChildC13(rep *report.Report, tier, part string) {
 			res := mc.DFS(mc.SchedConfig{Name: part + "/" + shape, Body: reusedIDBody(shape), Check: checkReusedID(shape), Outcome: outcome, Bound: bound, SwitchCost: 1, Deadline: dl})
 			merge(rep, "accounting/"+part+"/"+shape, res, bound)
 		}
+		return
+	}
+	if part == "ack-while-receiving" {
+		bound := 2
+		if tier == "thorough" {
+			bound = 3
+		}
+		res := mc.DFS(mc.SchedConfig{Name: part, Body: ackBody(), Check: checkAck(), Outcome: outcome, Bound: bound, SwitchCost: 1, Deadline: dl})
+		merge(rep, "accounting/"+part, res, bound)
 		return
 	}
 	if part == "stop-start" {
@@ -889,6 +988,13 @@ func faultCases(thorough bool) []faultCase {
 			out = append(out, faultCase{"send+late-recv", i, codes.Unavailable, then})
 		}
 	}
+	// the read side fails while the write side still accepts (and loses) messages: the receive error is the only
+	// report of the failure - also when it arrives before the application has called StartSending
+	for _, then := range []string{"close", "reset"} {
+		for _, i := range []int{0, 2} {
+			out = append(out, faultCase{"recv, sends still accepted", i, codes.Unavailable, then})
+		}
+	}
 	return out
 }
 
@@ -912,6 +1018,7 @@ func faultBody(fc faultCase) func() {
 				st.SendFailAt, st.SendFail, st.SendFailKeepsRecv = fc.index, ferr, fc.side == "send+late-recv"
 			} else {
 				st.RecvFailAt, st.RecvFail = fc.index, ferr
+				st.RecvFailSendsAccepted = fc.side == "recv, sends still accepted"
 			}
 		}
 		if err := c.Connect(context.Background()); err != nil {
